@@ -270,6 +270,7 @@ def run(tier, logdir):
         nq = 0
         tsol = 0.0
         viol = []
+        soft = []
         feas_term = False
         for conds, events in paths:
             ctors = [e[1] for e in events if e[0] == "ctor"]
@@ -290,7 +291,13 @@ def run(tier, logdir):
                 r = M.solve(dl, base + extra, timeout=20)
                 nq += 1
                 if r["verdict"] == "sat":
-                    viol.append(("Drawable::Term is offered on a path where Term::is_term() %s" % ("returned false" if called else "is not consulted"), conds))
+                    guarded_otherwise = (not called) and any("place_" in c or "ret_" in c for c in conds)
+                    if guarded_otherwise:
+                        # is_term() is not called on the path but the path is guarded by some other value (e.g. a cached flag): this
+                        # analysis cannot tell whether that value stands for "is a tty"
+                        soft.append(("Drawable::Term is offered on a path that does not call Term::is_term() but is guarded by another value", conds))
+                    else:
+                        viol.append(("Drawable::Term is offered on a path where Term::is_term() %s" % ("returned false" if called else "is not consulted"), conds))
                 elif r["verdict"] != "unsat":
                     raise M.Unsupported("solver verdict %s" % r["verdict"])
                 r2 = M.solve(dl, base + (["(assert (not (= %s 0)))" % istty[0]] if istty else []), timeout=20)
@@ -299,6 +306,8 @@ def run(tier, logdir):
         label = "(d) drawable(): no Drawable for a Hidden target, Drawable::Term only after is_term() == true (%d paths, %d queries)" % (len(paths), nq)
         if not feas_term:
             queries.append({"name": label, "verdict": "VACUOUS", "why": "no feasible path constructs Drawable::Term: the structure of drawable() changed", "wall_s": 0})
+        elif soft and not viol:
+            queries.append({"name": label, "verdict": "INCONCLUSIVE", "why": soft[0][0] + ": " + " ".join(soft[0][1])[:200], "wall_s": 0})
         elif not viol:
             queries.append({"name": label, "verdict": "PASS", "bounds": "every path of ProgressDrawTarget::drawable, callee results uninterpreted", "wall_s": round(time.time() - t0, 2), "solver": {"z3+cvc5": "QF_LIA"}})
         for what, conds in viol[:3]:
